@@ -47,7 +47,7 @@ PRIMS = ["name", "number", "string", "op", "type_comment", "soft_keyword", "fstr
          "fstring_end", "expect"]
 
 
-def build(grammar_text: str, unreachable=None):
+def build(grammar_text: str, unreachable=None, regenerate=False):
     from pegen.grammar_parser import GeneratedParser as GrammarParser
     from pegen.python_generator import PythonParserGenerator
     from pegen.tokenizer import Tokenizer
@@ -57,6 +57,9 @@ def build(grammar_text: str, unreachable=None):
         raise SyntaxError("grammar text unreadable")
     out = io.StringIO()
     PythonParserGenerator(g, out, unreachable_formatting=unreachable).generate("<gen>")
+    if regenerate:      # a second parser from the SAME grammar object
+        out = io.StringIO()
+        PythonParserGenerator(g, out, unreachable_formatting=unreachable).generate("<gen>")
     text = out.getvalue()
     ns = {k: ctor(k) for k in ("foo", "mk", "f", "g", "Node")}
     exec(compile(text, "<generated>", "exec"), ns)
@@ -158,7 +161,7 @@ def main():
         sys.stdout = io.StringIO()
         try:
             signal.setitimer(signal.ITIMER_REAL, 5.0)
-            g, P, text = build(job["grammar"], job.get("unreachable"))
+            g, P, text = build(job["grammar"], job.get("unreachable"), bool(job.get("regenerate")))
             signal.setitimer(signal.ITIMER_REAL, 0)
         except BaseException as e:   # noqa
             signal.setitimer(signal.ITIMER_REAL, 0)
